@@ -16,6 +16,18 @@ REF = XLError('#REF!')
 VALUE = XLError('#VALUE!')
 DATA = XLError('#GETTING_DATA')
 
+ALL_ERRORS = (ERROR, DIV_ZERO, NAME, NOT_AVAILABLE, NULL, NUM, REF, VALUE, DATA)
+
+
+def clear_tracebacks():
+    """
+    The errors above are shared instances that get raised: every raise
+    chains another traceback (and its frames) onto them, so drop those
+    once an evaluation is over.
+    """
+    for err in ALL_ERRORS:
+        err.__traceback__ = None
+
 
 def from_message(message):
     errdict = {
